@@ -119,14 +119,16 @@ MkLine(rt, name, refs, f, num, ovs, tg) ==
 
 Hd(tg)            == MkLine("H", "*", <<>>, <<>>, <<>>, <<>>, tg)
 Cm(text)          == MkLine("#", "*", <<>>, <<text>>, <<>>, <<>>, <<>>)
-S1(n, seq, tg)    == MkLine("S", n, <<>>, <<seq>>, <<>>, <<>>, tg)
+\* num of a GFA1 segment: the LN tag, else the length of the sequence, else -1 (project.py)
+S1(n, seq, len, tg) == MkLine("S", n, <<>>, <<seq>>, <<len>>, <<>>, tg)
 Lk(a, ao, b, bo, ov, ops, id) == MkLine("L", id, <<Rf(a, ao), Rf(b, bo)>>, <<ov>>, <<>>, <<ops>>, <<>>)
 Ct(a, ao, b, bo, pos, ov, ops, id) == MkLine("C", id, <<Rf(a, ao), Rf(b, bo)>>, <<pos, ov>>, <<>>, <<ops>>, <<>>)
 Pa(n, refs, ov, ops) == MkLine("P", n, refs, <<ov>>, <<>>, ops, <<>>)
 S2(n, len, lentxt, seq) == MkLine("S", n, <<>>, <<lentxt, seq>>, <<len>>, <<>>, <<>>)
 Ed(n, r1, r2, pos, num, aln, ops) == MkLine("E", n, <<r1, r2>>, pos \o <<aln>>, num, <<ops>>, <<>>)
 Gp(n, r1, r2, dist, var) == MkLine("G", n, <<r1, r2>>, <<dist, var>>, <<>>, <<>>, <<>>)
-Fr(s, ext, pos, aln) == MkLine("F", "*", <<Rf(s, "")>>, <<ext>> \o pos \o <<aln>>, <<>>, <<>>, <<>>)
+\* refs[1] = the segment, refs[2] = the external sequence (not a graph identifier)
+Fr(s, ext, exto, pos, aln) == MkLine("F", "*", <<Rf(s, ""), Rf(ext, exto)>>, pos \o <<aln>>, <<>>, <<>>, <<>>)
 Og(n, refs) == MkLine("O", n, refs, <<>>, <<>>, <<>>, <<>>)
 Ug(n, ids)  == MkLine("U", n, SeqMap(LAMBDA x : Rf(x, ""), ids), <<>>, <<>>, <<>>, <<>>)
 Cu(rt, f)   == MkLine(rt, "*", <<>>, f, <<>>, <<>>, <<>>)
@@ -141,9 +143,9 @@ Cat1 == <<
   (* 4*) Hd(<<Tg("xx", "i", "2")>>),
   (* 5*) Hd(<<Tg("ya", "Z", "x"), Tg("yb", "i", "3")>>),
   (* 6*) Hd(<<>>),
-  (* 7*) S1("A", "ACGT", <<>>),
-  (* 8*) S1("B", "*", <<Tg("LN", "i", "6")>>),
-  (* 9*) S1("C", "*", <<>>),
+  (* 7*) S1("A", "ACGT", 4, <<>>),
+  (* 8*) S1("B", "*", 6, <<Tg("LN", "i", "6")>>),
+  (* 9*) S1("C", "*", -1, <<>>),
   (*10*) Lk("A", "+", "B", "+", "2M1D1M", C2M1D1M, "*"),
   (*11*) Lk("B", "-", "A", "-", "1M1I2M", C1M1I2M, "*"),       \* complement form of 10
   (*12*) Lk("A", "+", "C", "+", "*", <<>>, "*"),
@@ -180,9 +182,9 @@ Cat2 == <<
   (*12*) Ed("e4", Rf("b", "-"), Rf("c", "+"), <<"0", "3", "0", "3$">>, <<0, 0, 3, 0, 0, 0, 3, 1>>, "1,2", <<>>),
   (*13*) Ed("*",  Rf("b", "+"), Rf("c", "+"), <<"3", "6$", "0", "3$">>, <<3, 0, 6, 1, 0, 0, 3, 1>>, "3M", <<COp(3, "M")>>),
   (*14*) Ed("e5", Rf("c", "+"), Rf("a", "+"), <<"1", "3$", "0", "2">>, <<1, 0, 3, 1, 0, 0, 2, 0>>, "*", <<>>),
-  (*15*) Fr("a", "x+", <<"0", "2", "0", "2">>, "*"),
-  (*16*) Fr("b", "y-", <<"1", "3", "10", "12$">>, "2M"),
-  (*17*) Fr("a", "x+", <<"2", "4$", "5", "7">>, "0,2"),
+  (*15*) Fr("a", "x", "+", <<"0", "2", "0", "2">>, "*"),
+  (*16*) Fr("b", "y", "-", <<"1", "3", "10", "12$">>, "2M"),
+  (*17*) Fr("a", "x", "+", <<"2", "4$", "5", "7">>, "0,2"),
   (*18*) Gp("g1", Rf("a", "+"), Rf("b", "-"), "10", "*"),
   (*19*) Gp("*",  Rf("b", "+"), Rf("c", "+"), "5", "2"),
   (*20*) Og("o1", <<Rf("a", "+"), Rf("b", "+")>>),
@@ -213,7 +215,7 @@ PosFields(l) ==
     [] l.rt \in {"L", "C"} -> <<l.refs[1].id, l.refs[1].o, l.refs[2].id, l.refs[2].o>> \o l.f
     [] l.rt = "P" -> <<l.name, JoinS(SeqMap(OrId, l.refs), ",")>> \o l.f
     [] l.rt \in {"E", "G"} -> <<l.name, OrId(l.refs[1]), OrId(l.refs[2])>> \o l.f
-    [] l.rt = "F" -> <<l.refs[1].id>> \o l.f
+    [] l.rt = "F" -> <<l.refs[1].id, OrId(l.refs[2])>> \o l.f
     [] l.rt = "O" -> <<l.name, JoinS(SeqMap(OrId, l.refs), " ")>>
     [] l.rt = "U" -> <<l.name, JoinS(SeqMap(LAMBDA r : r.id, l.refs), " ")>>
     [] l.rt = "H" -> <<>>
